@@ -49,9 +49,11 @@ func (u *UnitGen) intrinsic(fr *Frame, st *State, instr ssa.Instruction, fn *ssa
 		case "Unlock":
 			u.oblige(st, "lock", u.obName("lock:release("+name+")"), "Unlock of a mutex not held for writing", Eq(cur, IntN(2)))
 			u.setDef(st, lk, Store(arr, ref, IntN(0)))
+			u.sectionEnds(st, lk, ref)
 		case "RUnlock":
 			u.oblige(st, "lock", u.obName("lock:rrelease("+name+")"), "RUnlock of a mutex not held for reading", Eq(cur, IntN(1)))
 			u.setDef(st, lk, Store(arr, ref, IntN(0)))
+			u.sectionEnds(st, lk, ref)
 		}
 		return nil, true
 	}
@@ -115,8 +117,10 @@ func (u *UnitGen) lockCheck(fr *Frame, st *State, a *Addr, write bool, v ssa.Val
 	n := shortTypeName(a.objT) + "." + fname
 	if write {
 		u.oblige(st, "lock", u.obName("lock:write("+n+")"), "write of "+n+" requires "+mu+" held for writing", Eq(cur, IntN(2)))
+		u.sectionWrite(st, lk, a.ref, n, mu)
 	} else {
 		u.oblige(st, "lock", u.obName("lock:read("+n+")"), "read of "+n+" requires "+mu+" held", App(SBool, ">=", cur, IntN(1)))
+		u.sectionRead(st, lk, a.ref)
 	}
 	if v != nil {
 		fr.guardOrigin[v] = guardRef{lk, a.ref, n, mu}
@@ -138,6 +142,49 @@ func (u *UnitGen) lockCheckMapWrite(fr *Frame, st *State, m ssa.Value) {
 	}
 	cur := Select(u.get(st, g.lockKey, ArraySort(SInt, SInt)), g.ref)
 	u.oblige(st, "lock", u.obName("lock:write("+g.name+"[])"), "update of map "+g.name+" requires "+g.mutex+" held for writing", Eq(cur, IntN(2)))
+	u.sectionWrite(st, g.lockKey, g.ref, g.name+"[]", g.mutex)
+}
+
+// Critical-section tracking (check-then-act): every release of a mutex ends a section (its epoch
+// LE goes up); a read of a guarded field remembers the section it happened in (LRD = epoch+1);
+// a write of a field guarded by the same mutex must happen in the section of the unit's latest
+// such read - otherwise the unit decided on a value it read, let go of the lock, and then acted
+// on the decision after other goroutines could change the value.
+func (u *UnitGen) sectionEnds(st *State, lk string, ref Term) {
+	so := ArraySort(SInt, SInt)
+	ek := "LE:" + strings.TrimPrefix(lk, "LK:")
+	e := u.get0(st, ek, so)
+	u.setDef(st, ek, Store(e, ref, App(SInt, "+", Select(e, ref), IntN(1))))
+}
+
+func (u *UnitGen) sectionRead(st *State, lk string, ref Term) {
+	so := ArraySort(SInt, SInt)
+	name := strings.TrimPrefix(lk, "LK:")
+	e := u.get0(st, "LE:"+name, so)
+	r := u.get0(st, "LRD:"+name, so)
+	u.setDef(st, "LRD:"+name, Store(r, ref, App(SInt, "+", Select(e, ref), IntN(1))))
+}
+
+func (u *UnitGen) sectionWrite(st *State, lk string, ref Term, n, mu string) {
+	so := ArraySort(SInt, SInt)
+	name := strings.TrimPrefix(lk, "LK:")
+	e := u.get0(st, "LE:"+name, so)
+	r := u.get0(st, "LRD:"+name, so)
+	last := Select(r, ref)
+	u.oblige(st, "lock", u.obName("lock:single-section("+n+")"), "write of "+n+" happens in the same critical section of "+mu+" as this function's latest read of a field it guards (no check-then-act across a release)",
+		Or(Eq(last, IntN(0)), Eq(last, App(SInt, "+", Select(e, ref), IntN(1)))))
+}
+
+// get0 reads a bookkeeping array whose initial value is all zeros.
+func (u *UnitGen) get0(st *State, key string, so Sort) Term {
+	if v, ok := st.vars[key]; ok {
+		return v
+	}
+	if _, ok := u.init[key]; !ok {
+		u.varSort[key] = so
+		u.init[key] = ConstArray(so, IntN(0))
+	}
+	return u.init[key]
 }
 
 func (u *UnitGen) lockCheckMapRead(fr *Frame, st *State, m ssa.Value) {
@@ -147,6 +194,7 @@ func (u *UnitGen) lockCheckMapRead(fr *Frame, st *State, m ssa.Value) {
 	}
 	cur := Select(u.get(st, g.lockKey, ArraySort(SInt, SInt)), g.ref)
 	u.oblige(st, "lock", u.obName("lock:read("+g.name+"[])"), "read of map "+g.name+" requires "+g.mutex+" held", App(SBool, ">=", cur, IntN(1)))
+	u.sectionRead(st, g.lockKey, g.ref)
 }
 
 // checkHolds verifies the lock preconditions of a callee contract ("holds r.mu:W").
